@@ -533,10 +533,13 @@ fn parse_marker_op<T: Pep508Url, R: Reporter>(
         // wsp*
         cursor.eat_whitespace();
         // ('or' marker_and) or ('and' marker_or)
-        let (start, len) = cursor.peek_while(|c| !c.is_whitespace());
+        // The keyword ends where a word ends, so that `a and(b)` and `a and'x' == extra` are
+        // read like `a and (b)` and `a and 'x' == extra`.
+        let is_word = |c: char| c.is_alphanumeric() || c == '_' || c == '.';
+        let (start, len) = cursor.peek_while(is_word);
         match cursor.slice(start, len) {
             value if value == op => {
-                cursor.take_while(|c| !c.is_whitespace());
+                cursor.take_while(is_word);
 
                 if let Some(expression) = parse_inner(cursor, reporter)? {
                     match tree {
